@@ -247,8 +247,14 @@ func (ss *SourceConf) applyAux(aux *auxSourceConf) (err error) {
 		}
 		patterns = append(patterns, p)
 	}
-	ss.Include = patterns[0:len(aux.Include)]
-	ss.Ignore = patterns[len(aux.Include):]
+	// An omitted list has to stay nil: only then is it inherited from the
+	// preceding source (an empty slice of patterns would not be)
+	if aux.Include != nil {
+		ss.Include = patterns[0:len(aux.Include)]
+	}
+	if aux.Ignore != nil {
+		ss.Ignore = patterns[len(aux.Include):]
+	}
 	if aux.ErrorBackoff != "" {
 		ss.ErrorBackoff, err = strconv.ParseFloat(aux.ErrorBackoff, 64)
 		ss.isErrorBackoffSet = true
